@@ -120,6 +120,10 @@ type Stor struct {
 	// ReadOnlyAudit: when set, mutating operations are recorded in Mutations (still executed)
 	Mutations []Op
 	audit     bool
+	// base state for storages created as crash images (ImageAt on an image replays ops on top of it)
+	base        map[storage.FileDesc]*file
+	baseMeta    storage.FileDesc
+	baseHasMeta bool
 }
 
 type lock struct{ s *Stor }
@@ -646,13 +650,20 @@ func (s *Stor) ImageAt(n int, io ImageOpts) *Stor {
 		n = len(ops)
 	}
 	ops = ops[:n]
+	base, bm, bh := s.base, s.baseMeta, s.baseHasMeta
 	s.mu.Unlock()
-	return ImageOf(ops, io)
+	return imageFrom(base, bm, bh, ops, io)
 }
 
-// ImageOf computes the crash image of an explicit op-log prefix.
-func ImageOf(ops []Op, io ImageOpts) *Stor {
+// ImageOf computes the crash image of an explicit op-log prefix of a storage that started empty.
+func ImageOf(ops []Op, io ImageOpts) *Stor { return imageFrom(nil, storage.FileDesc{}, false, ops, io) }
+
+func imageFrom(base map[storage.FileDesc]*file, baseMeta storage.FileDesc, baseHasMeta bool, ops []Op, io ImageOpts) *Stor {
 	img := New(true)
+	for fd, f := range base {
+		img.files[fd] = &file{data: append([]byte(nil), f.data...), synced: f.synced, everSynced: f.everSynced}
+	}
+	img.meta, img.hasMeta = baseMeta, baseHasMeta
 	for _, o := range ops {
 		if o.Fail && o.Kind != OpWrite {
 			continue
@@ -723,6 +734,11 @@ func ImageOf(ops []Op, io ImageOpts) *Stor {
 		f.synced = len(f.data)
 		f.everSynced = true
 	}
+	img.base = map[storage.FileDesc]*file{}
+	for fd, f := range img.files {
+		img.base[fd] = &file{data: append([]byte(nil), f.data...), synced: f.synced, everSynced: true}
+	}
+	img.baseMeta, img.baseHasMeta = img.meta, img.hasMeta
 	return img
 }
 
